@@ -211,6 +211,7 @@ class MarkGen(gen_prog.ProgGen):
 
     def __init__(self, rnd, maxdepth=3):
         super().__init__(rnd, maxdepth=maxdepth, probes=False)
+        self.late_defs = True
         self.mk = 0
 
     def marker(self):
@@ -406,7 +407,7 @@ def run_columns(spec, acc, api):
             continue
         g, f = rf
         for name, head, expr, tail, before in contexts(E, rnd):
-            line = head + expr + tail
+            line = head + expr + tail + rnd.choice(['', '', ' ', '   ', '\t', ' \t '])
             o = len(head)
             if name == 'expr':
                 # the whole line is the expression: leading indentation belongs to the unparsed remainder when the fault is at the start
